@@ -711,8 +711,8 @@ def info_variants():
 
 
 def parse_info_oracle(data):
-    """Independent restatement of json.loads + info_is_sharded, as the
-    model's pinfo classes."""
+    """Independent restatement of what json.loads, info_is_sharded and the
+    info setter see, as the model's pinfo classes (StHttp.pinfo)."""
     try:
         info = json.loads(data)
     except json.JSONDecodeError:
@@ -720,18 +720,30 @@ def parse_info_oracle(data):
     except Exception as e:  # noqa: BLE001  (UnicodeDecodeError)
         return [Atom("crash"), Atom("ValueError" if isinstance(e, ValueError) else type(e).__name__)]
     if not isinstance(info, dict):
-        return [Atom("crash"), Atom("AttributeError")]
+        return Atom("notdict")
     scales = info.get("scales", [])
-    if not isinstance(scales, (list, tuple, str, dict)):
+    if not isinstance(scales, (list, tuple, dict)):
         return [Atom("crash"), Atom("TypeError")]
     out = []
     for s in scales:
-        try:
-            t = s["sharding"]["@type"]
-            out.append(b(t) if isinstance(t, str) else Atom("none"))
-        except Exception:  # noqa: BLE001
-            out.append(Atom("none"))
+        if not isinstance(s, dict):
+            out.append(Atom("notdict"))
+        elif not s.get("sharding"):
+            out.append(Atom("nosharding"))
+        elif not isinstance(s["sharding"], dict):
+            out.append(Atom("shardingbad"))
+        else:
+            t = s["sharding"].get("@type")
+            out.append([Atom("type"), b(t) if isinstance(t, str) else Atom("none")])
     return [Atom("scales"), out]
+
+
+def info_declares_sharding(data):
+    """The property's reading of "the info declares sharding": a JSON object
+    with at least one scale, every scale carrying the sharded-v1 type."""
+    pi = parse_info_oracle(data)
+    return (isinstance(pi, list) and str(pi[0]) == "scales" and len(pi[1]) > 0
+            and all(isinstance(x, list) and x[1] == b"neuroglancer_uint64_sharded_v1" for x in pi[1]))
 
 
 def describe_accessor(acc):
@@ -864,9 +876,7 @@ def dispatch_part(R, n):
                 R.disagree("get_accessor_for_url tree vs model", case, [str(x)[:160] for x in dd[:3]], "model")
         # oracle: sharded accessor iff forced or the info declares sharding for all scales
         if j["res"][0] == "ok" and j["data"] is not None and not j["as_gz"] and j["at_base"]:
-            pi = parse_info_oracle(j["data"])
-            declared = (isinstance(pi, list) and str(pi[0]) == "scales" and len(pi[1]) > 0
-                        and all(x == b"neuroglancer_uint64_sharded_v1" for x in pi[1]))
+            declared = info_declares_sharding(j["data"])
             forced = bool(j["opts"].get("sharding"))
             is_sh = j["res"][1][0] == "sharded-file"
             if is_sh != (declared or forced):
